@@ -420,6 +420,12 @@ pub fn run(tier: Tier) -> RunOutcome {
         Tier::Quick => GenOpts::quick(),
         Tier::Thorough => GenOpts::thorough(),
     };
+    let mut opts = opts;
+    if chance("manycones", 1, 10) {
+        // more than five cones of one type: the header then elides the dimension list
+        opts.max_cones = 10;
+        opts.max_cone_dim = 2;
+    }
     let mut prob = with_sim(|s| gen_problem(&mut s.cs, &opts));
     let verbose = !chance("quiet", 1, 4);
     let settings = with_sim(|s| gen_settings(&mut s.cs, verbose));
